@@ -119,7 +119,23 @@ def configs(repo, cname, size):
                 return {(f"bins[{i}]", "weight") for i in reached}
             return {(f"bins[{max(reached)}]", "weight")}
 
-        return [Config(c, line, fields, numeric_regions(line), expected, {}, f"{cname} with {n} thresholds")]
+        out = [Config(c, line, fields, numeric_regions(line), expected, {}, f"{cname} with {n} thresholds")]
+        if cname == "Stack" and n >= 2:
+            # Stack neither sorts nor validates its thresholds: each level tests its own threshold independently
+            rpts = list(reversed(pts))
+
+            def fields_desc():
+                bins = tuple([(line.pos_of("-inf"), Child("bins[0]"))] + [(line.pos_of(p), Child(f"bins[{i + 1}]")) for i, p in enumerate(rpts)])
+                return _common({"bins": bins, "nanflow": Child("nanflow")})
+
+            def expected_desc(label, q):
+                if q is NAN:
+                    return {("nanflow", "weight")}
+                reached = [0] + [i + 1 for i, p in enumerate(rpts) if q.k >= line.pos_of(p).k]
+                return {(f"bins[{i}]", "weight") for i in reached}
+
+            out.append(Config(c, line, fields_desc, numeric_regions(line), expected_desc, {"unordered": True}, f"Stack with {n} thresholds (descending)"))
+        return out
     if cname in ("Fraction", "Select"):
         line = OrderLine(["zero"], consts={0: "zero", 0.0: "zero"})
 
@@ -306,7 +322,7 @@ def run_fill(repo, cfg, label, q, wcls):
     return [PathResult(e, c, o, m, cfg, wcls) for (e, c, o, m) in explore(make, entry)]
 
 
-def run_numpy(repo, cfg, label, q, wcls, wform, children_count, shape_known=False):
+def run_numpy(repo, cfg, label, q, wcls, wform, children_count, shape_known=False, single_row=False):
     f = repo.own_method(cfg.cls, "_numpy")
 
     def make():
@@ -314,6 +330,8 @@ def run_numpy(repo, cfg, label, q, wcls, wform, children_count, shape_known=Fals
         knobs = dict(cfg.knobs)
         knobs["children_count"] = children_count
         knobs["identity_transform"] = True
+        if single_row:
+            knobs["single_row"] = True
         m = Machine(repo, cfg.cls, cfg.line, obj, knobs)
         m.q_value = Arr(q, "input", "q") if not isinstance(q, Opaque) else Opaque("column")
         return m
